@@ -5,8 +5,8 @@ namespace Orda.TxLock
 structure Inv (n : Nat) (s : St) : Prop where
   crashed : s.crashed = false
   len : s.pcs.length = n
-  noCU : ∀ i, s.pcs[i]? ≠ some .critUnlocked
-  noRel : ∀ i, s.pcs[i]? ≠ some .released
+  noCU : ∀ i : Nat, s.pcs[i]? ≠ some .critUnlocked
+  noRel : ∀ i : Nat, s.pcs[i]? ≠ some .released
   holder : ∀ i, s.pcs[i]? = some .critLocked ↔ s.mutex = some i
   flag : s.isLocked = true ↔ s.mutex.isSome = true
   ctx : s.txCtx = s.mutex
@@ -137,8 +137,8 @@ theorem inv_of_reach {n : Nat} {s : St} (h : Reach true n s) : Inv n s := by
     and the flags describe the mutex exactly -/
 theorem fixed_mutual_exclusion (n : Nat) (s : St) (h : Reach true n s) :
     s.crashed = false ∧
-    (∀ i, s.pcs[i]? ≠ some .critUnlocked) ∧ (∀ i, s.pcs[i]? ≠ some .released) ∧
-    (∀ i j, s.pcs[i]? = some .critLocked → s.pcs[j]? = some .critLocked → i = j) ∧
+    (∀ i : Nat, s.pcs[i]? ≠ some .critUnlocked) ∧ (∀ i : Nat, s.pcs[i]? ≠ some .released) ∧
+    (∀ i j : Nat, s.pcs[i]? = some .critLocked → s.pcs[j]? = some .critLocked → i = j) ∧
     (∀ i, s.pcs[i]? = some .critLocked ↔ s.mutex = some i) ∧
     (s.isLocked = true ↔ s.mutex.isSome = true) ∧ (s.txCtx = s.mutex) ∧
     s.pcs.length = n := by
@@ -151,7 +151,7 @@ theorem fixed_mutual_exclusion (n : Nat) (s : St) (h : Reach true n s) :
   exact Option.some.inj b
 
 /-- C20 (fixed protocol), no deadlock: as long as some goroutine is not done, some step is enabled -/
-theorem fixed_no_deadlock (n : Nat) (s : St) (h : Reach true n s) (hnd : ∃ i p, s.pcs[i]? = some p ∧ p ≠ .done) :
+theorem fixed_no_deadlock (n : Nat) (s : St) (h : Reach true n s) (hnd : ∃ (i : Nat) (p : Pc), s.pcs[i]? = some p ∧ p ≠ .done) :
     ∃ s', Step true s s' := by
   have hi := inv_of_reach h
   obtain ⟨i, p, hp, hne⟩ := hnd
@@ -208,7 +208,8 @@ theorem reach_o5 : Reach false 2 o5 :=
     is broken: with two goroutines there is a reachable state in which one of them is inside the critical
     section without holding the mutex, and a reachable crashed state -/
 theorem old_protocol_broken :
-    (∃ s, Reach false 2 s ∧ ∃ i, s.pcs[i]? = some .critUnlocked) ∧ (∃ s, Reach false 2 s ∧ s.crashed = true) :=
+    (∃ s, Reach false 2 s ∧ ∃ i : Nat, s.pcs[i]? = some .critUnlocked) ∧ (∃ s, Reach false 2 s ∧ s.crashed = true) :=
   ⟨⟨o4, reach_o4, 1, rfl⟩, ⟨o5, reach_o5, rfl⟩⟩
 
 end Orda.TxLock
+
